@@ -115,6 +115,27 @@ var faultStmts = []string{
     pval()
     s.In.Nope(1)
   }`,
+	// a fault while evaluating the ARGUMENTS of a call that is a direct member of a conc block
+	`conc {
+    fint(p.F)
+  }`, `conc {
+    fint(l[3])
+    y = 2
+  }`, `conc {
+    fint(nope)
+  }`, `conc {
+    x = fint(1 / zero)
+    fint(2)
+  }`, `conc {
+    s.M(p.F)
+  }`, `conc {
+    s.In.M(l[3])
+  }`, `conc {
+    fint(!5)
+  }`, `conc {
+    l[3] = 1
+    fint(s.Nil.F)
+  }`,
 }
 
 // faults in return position (must be the last statement of their block)
@@ -367,7 +388,7 @@ func init() {
 		BudgetThor:  30 * time.Minute,
 		Kind:        "schedules",
 		Rule: fmt.Sprintf("%d statement faults + %d return-position faults (type mismatches in arithmetic/comparison/logic/!, division by zero, unknown variable/function/method, wrong-class stores, nil pointers, out-of-range / negative / wrong-type indexes and keys, non-boolean conditions, bad call arguments and arities, panicking injected functions (value, error, runtime error), void result used as value, failing loop step, non-iterable forRange, faults inside conc) x nesting {top, if, for, forRange} [quick: rotated] + 6 endless for loops (iterations ending normally, through continue - direct, nested, mixed -, with an unreachable break), ", len(faultStmts), len(faultReturns)) +
-			"as rule 1-of-3 and 2-of-3 next to healthy observer rules x every engine model (x policy) [quick: every second], each called twice on the same engine under the default schedule; representatives under every schedule with <=1 (2) preemptions in the goroutine-spawning models; plus representatives behind all 24 pool execute methods x execution models, three requests each. " +
+			"as rule 1-of-3 and 2-of-3 next to healthy observer rules x every engine model (x policy) [quick: every second], each called twice on the same engine under the default schedule; representatives under every schedule with <=1 (2) deviations from the default scheduler (delay bounding) in the goroutine-spawning models; plus representatives behind all 24 pool execute methods x execution models, three requests each. " +
 			"Oracle: the call returns (no panic in the caller, no panic on any gengine goroutine, no deadlock, step horizon not exceeded), error non-nil, the other rules run exactly as the model's reference plan prescribes, the second call behaves the same",
 		Assume: []string{"injected functions terminate", "one level of unbounded loop (the engine's 10000-iteration cut-off)"},
 		Run: func(c *hx.Ctx) {
@@ -380,7 +401,7 @@ func init() {
 					c.Res.Capped = append(c.Res.Capped, "time budget before all configurations")
 					break
 				}
-				hx.Explore("C09", modelScenario(cfg), hx.ExploreCfg{Bound: envBound(bounds[i]), DefaultOnly: bounds[i] == 0, Prune: true, Deadline: c.Deadline}, c.Res)
+				hx.Explore("C09", modelScenario(cfg), hx.ExploreCfg{Bound: envBound(bounds[i]), DefaultOnly: bounds[i] == 0, Delay: true, Prune: true, Deadline: c.Deadline}, c.Res)
 			}
 			for i, cfg := range c09PoolConfigs(c.Thorough()) {
 				if !c.Mine(i) {
